@@ -846,6 +846,17 @@ func (cl *cluster) enabled() []string {
 					out = append(out, fmt.Sprintf("Revert:%d", m))
 				}
 			}
+		case "RevertTo": // to any volume snapshot that was reported successful and is still on the chain, no injected failure
+			max := c.MaxReverts
+			if max == 0 {
+				max = 1
+			}
+			if cl.nReverts >= max || len(v.Backends) == 0 {
+				continue
+			}
+			for k := range cl.goodSnaps {
+				out = append(out, fmt.Sprintf("RevertTo:%d", k))
+			}
 		case "MonFail":
 			for _, b := range cl.bes {
 				if b.monitoring && !b.detached && faultsLeft(1) {
